@@ -15,6 +15,10 @@ func main() {
 		cmdProbe(os.Args[2])
 		return
 	}
+	if len(os.Args) >= 3 && os.Args[1] == "probetok" {
+		cmdProbeTok(os.Args[2:])
+		return
+	}
 	if len(os.Args) >= 2 && os.Args[1] == "probesurrogate" {
 		cmdProbeSurrogate()
 		return
